@@ -72,6 +72,8 @@ def lower_unit(u, outdir):
                 f.truncate_after = t['truncate_after']
             if t.get('skeleton'):
                 f.skeleton = True
+            if t.get('region_params'):
+                f.region_params = t['region_params']
             if t.get('keep_from_call'):
                 f.keep_from_call = t['keep_from_call']
             if t.get('keep_until'):
